@@ -1,8 +1,12 @@
 #[cfg(test)]
 mod tests;
 
+#[cfg(not(rws_verif))]
 use std::{thread};
+#[cfg(not(rws_verif))]
 use std::sync::{Arc, mpsc, Mutex};
+#[cfg(rws_verif)]
+use crate::verif_hooks::{thread, Arc, mpsc, Mutex};
 
 pub struct ThreadPool {
     _workers: Vec<Worker>,
@@ -35,6 +39,8 @@ impl ThreadPool {
             F: FnOnce() + Send  + 'static,
     {
         let job = Box::new(f);
+        #[cfg(rws_verif)]
+        crate::verif_hooks::point("pool.execute.before_send");
         let boxed_send = self.sender.send(job);
         if boxed_send.is_err() {
             eprintln!("unable to send job: {}", boxed_send.err().unwrap());
@@ -57,18 +63,26 @@ impl Worker {
         let boxed_thread = builder.spawn(move || loop {
 
             let boxed_lock = receiver.lock();
+            #[cfg(rws_verif)]
+            crate::verif_hooks::point("pool.worker.lock_returned");
             if boxed_lock.is_err() {
                 eprintln!("Worker {} -> unable to acquire lock {}", id, boxed_lock.err().unwrap());
             } else {
                 let boxed_job = boxed_lock.unwrap().recv();
                 if boxed_job.is_err() {
                     eprintln!("Worker {} -> unable to get job to execute {}", id, boxed_job.err().unwrap());
+                    #[cfg(rws_verif)]
+                    if crate::verif_hooks::exit_on_disconnect() { break; }
                 } else {
                     let job = boxed_job.unwrap();
+                    #[cfg(rws_verif)]
+                    crate::verif_hooks::point("pool.worker.job_received");
 
                     println!("Worker {} got a job; executing.", id);
 
                     job();
+                    #[cfg(rws_verif)]
+                    crate::verif_hooks::point("pool.worker.job_finished");
                 }
 
             }
